@@ -36,7 +36,14 @@ Inductive rstep :=
   | RSet (allow : bool) (url : N) (name : bytes) (nurl : N) (enabled : bool) (o : outcome)
          (obs_restart obs_err : bool) (obs_lists : list lobs) (obs_verdicts : list N)
   | RRebuild (obs_lists : list lobs) (obs_verdicts : list N)
-  | RRestart (obs_lists : list lobs) (obs_verdicts : list N).
+  | RRestart (obs_lists : list lobs) (obs_verdicts : list N)
+  (* a pass over one array ([allow]: which) whose working copies are taken
+     before, and whose downloads finish after, a set_url call on a list of
+     that array (the list server holds the first download back until the call
+     has returned); observed when the pass has returned *)
+  | ROver (allow force : bool) (due : list N) (ocs : list (N * outcome))
+          (url : N) (name : bytes) (nurl : N) (enabled : bool) (o : outcome)
+          (obs_updated : N) (obs_net_err : bool) (obs_lists : list lobs) (obs_verdicts : list N).
 
 Inductive case :=
   (* text, reader ends in an error; observed: error class, title, rule count,
@@ -79,6 +86,12 @@ Definition run_step (s : rstep) (st : rstate) : bool * rstate :=
       (Bool.eqb er er' && (er || Bool.eqb rs rs'), st')
   | RRebuild _ _ => (true, rebuild_now st)
   | RRestart _ _ => (true, restart crc32_update st)
+  | ROver a f due ocs u name nu en o n ne _ _ =>
+      let due' := fun i => existsb (N.eqb i) due in
+      let mid := fun s => snd (set_props crc32_update a u name nu en o s) in
+      let '(n', ne') := over_report crc32_update a f due' (oc_of ocs) mid st in
+      (Bool.eqb ne ne' && (n =? if ne then 0 else n'),
+       refresh_over crc32_update a f due' (oc_of ocs) mid st)
   end.
 
 Definition file_gen (i : N) (fs : files) : option N :=
@@ -100,6 +113,7 @@ Definition step_obs (s : rstep) : list lobs * list N :=
   match s with
   | RStep _ _ _ _ _ _ _ ol ov => (ol, ov) | RSet _ _ _ _ _ _ _ _ ol ov => (ol, ov) | RRebuild ol ov => (ol, ov)
   | RRestart ol ov => (ol, ov)
+  | ROver _ _ _ _ _ _ _ _ _ _ _ ol ov => (ol, ov)
   end.
 
 Definition step_agrees (probes : list bytes) (s : rstep) (st0 st : rstate) : bool :=
